@@ -427,7 +427,7 @@ func init() {
 				}
 			}
 			return []Case{
-				mk(map[string]any{}, addAt("a[1][0]", 1), addAt("a[0][0]", 2)),                      // pinned-tree panic
+				mk(map[string]any{}, addAt("a[1][0]", 1), addAt("a[0][0]", 2)),                               // pinned-tree panic
 				mk(map[string]any{}, addAt("a[0][0][0]", 1), addAt("a[0][0][1]", 2), addAt("a[0][1][0]", 3)), // lost data
 				mk(map[string]any{"a": []any{1, 2}}, addAt("a[3]", 9)),
 				mk(map[string]any{"b": map[string]any{"c": []any{map[string]any{"x": 1}}}}, rmAt("b.c[0].x"), rmAt("b.c[0]")),
